@@ -284,7 +284,11 @@ Definition snd_n1 (s : cst) (j : nat) (x : sender) : cst :=
 Definition resume (s : cst) (t : nat) : cst :=
   match t with
   | O => rx_run s
-  | S j => match nth_error (c_snd s) j with Some x => snd_n1 s j x | None => s end
+  | S j =>
+      match nth_error (c_snd s) j with
+      | Some x => match s_ph x, s_ops x with PN1, _ :: _ => snd_n1 s j x | _, _ => s end
+      | None => s
+      end
   end.
 
 Fixpoint settle (fuel : nat) (s : cst) : cst :=
